@@ -438,7 +438,9 @@ func (p *c20) injected(u c20unit, j int) (src, what string, off int) {
 	j -= B
 	// unknown tag at the (j-2B)-th statement position of the structure tree
 	k := j - 2*B
+	insertIntoEmbedBodies = true
 	body, ok := insertAt(u.nodes(), &k, []gen.Node{&gen.NRaw{S: "{% zork %}"}})
+	insertIntoEmbedBodies = false
 	if !ok {
 		return "", "", -1
 	}
@@ -831,6 +833,21 @@ var c20Broken = []string{
 	"{% filter %}x{% endfilter %}", "{% filter 1 %}x{% endfilter %}", "{% filter f| %}x{% endfilter %}", "{% filter f %}x", "{% do %}", "{% do 1 2 %}", "{% verbatim %}x", "{# unclosed", "{{ a", "{% if a", "{% if a %}{{ b",
 }
 
+// c20anonLoader hands out templates that have no name of their own.
+type c20anonLoader struct{ inner stick.Loader }
+
+type c20anon struct{ stick.Template }
+
+func (c20anon) Name() string { return "" }
+
+func (l *c20anonLoader) Load(name string) (stick.Template, error) {
+	t, err := l.inner.Load(name)
+	if err != nil {
+		return nil, err
+	}
+	return c20anon{t}, nil
+}
+
 // c20failingReads hands out, for one name, a template whose source breaks off with a read error.
 type c20failingReads struct {
 	inner stick.Loader
@@ -900,6 +917,10 @@ func (p *c20) runNamed(res *fw.Result, j int) {
 			var loader stick.Loader = &stick.MemoryLoader{Templates: src}
 			if bsrc == c20BadReader {
 				loader = &c20failingReads{inner: loader, bad: bname}
+			} else if (j/len(broken))%2 == 1 {
+				// a user's loader whose templates do not say what they are called (Name() is ""): the template
+				// that was asked for is the one that has to be named
+				loader = &c20anonLoader{inner: loader}
 			}
 			env := stick.New(loader)
 			var err error
